@@ -103,6 +103,9 @@ func jobC02(c *rt.Ctx) {
 		if i == nseeds-1 {
 			return -1 // 0xff..ff
 		}
+		if i%4 == 3 {
+			return -2 - i // hash-derived seed (all 32 bytes non-trivial)
+		}
 		return i
 	}
 	// (1) key derivation for every seed of the alphabet
@@ -268,6 +271,39 @@ func jobC03(c *rt.Ctx) {
 						d["variant"], d["mode"], d["panic"] = vs.String(), name, fmt.Sprint(pv)
 						c.Violation("C03 "+name+" variant="+vs.v.String(), "own signature rejected by "+name, d)
 					}
+				}
+			}
+		}
+	}
+	// message-length sweep: every length 0..300 and block/size boundaries up to 1 MiB, single verification in both modes
+	var lens []int
+	for l := 0; l <= 300; l++ {
+		lens = append(lens, l)
+	}
+	lens = append(lens, 511, 512, 513, 1023, 1024, 1025, 4095, 4096, 8191, 8192, 65535, 65536, 65537, 1<<20)
+	c.Require("msglen-sweep")
+	for li, l := range lens {
+		for vi, vs := range []variantSpec{vPure, vCtx} {
+			if !c.Take() {
+				continue
+			}
+			msg := msgLen(l, li)
+			t := honestTriple(4000+li%7, msg, vs)
+			c.Class("msglen-sweep")
+			c.Distinct(fmt.Sprintf("ml %d %d", l, vi), true)
+			for _, zip := range []bool{false, true} {
+				got, pv := implSingle(t, vs, zip)
+				c.Step(1)
+				if !got || pv != nil {
+					c.Violation(fmt.Sprintf("C03 msglen-sweep variant=%s", vs.v), fmt.Sprintf("own signature over a %d-byte message rejected (%s, zip215=%v)", l, vs, zip), map[string]interface{}{"msg_len": l, "variant": vs.String(), "key": ref.Hex(t.key), "sig": ref.Hex(t.sig)})
+				}
+			}
+			if l <= 300 && l%3 == 0 {
+				entries := batchWith(t, 2, 5, vs)
+				_, valid, err, bpv := implBatch(entries, vs, false, rt.NewRng(c.Seed, "c03ml"))
+				c.Step(1)
+				if bpv != nil || err != nil || len(valid) != 5 || !valid[2] {
+					c.Violation(fmt.Sprintf("C03 msglen-sweep batch variant=%s", vs.v), fmt.Sprintf("own signature over a %d-byte message rejected as batch member", l), map[string]interface{}{"msg_len": l, "variant": vs.String()})
 				}
 			}
 		}
